@@ -303,6 +303,36 @@ func c12Calls() []c12call {
 			}
 			return res.Unwrap()
 		}},
+		c12call{name: "BatchExec(OnBatchErr=Stop)", ops: []kmip.Operation{kmip.OperationActivate, kmip.OperationGet}, run: func(cl *kmipclient.Client) ([]kmip.OperationPayload, error) {
+			res, err := cl.Activate("id").Then(func(c *kmipclient.Client) kmipclient.PayloadBuilder { return c.Get("id") }).ExecContext(context.Background(), kmipclient.OnBatchErr(kmip.BatchErrorContinuationOptionStop))
+			if err != nil {
+				return nil, err
+			}
+			return res.Unwrap()
+		}},
+		c12call{name: "BatchExec3(OnBatchErr=Continue)", ops: []kmip.Operation{kmip.OperationActivate, kmip.OperationGet, kmip.OperationDestroy}, run: func(cl *kmipclient.Client) ([]kmip.OperationPayload, error) {
+			res, err := cl.Activate("id").Then(func(c *kmipclient.Client) kmipclient.PayloadBuilder { return c.Get("id") }).
+				Then(func(c *kmipclient.Client) kmipclient.PayloadBuilder { return c.Destroy("id") }).Exec(kmipclient.OnBatchErr(kmip.BatchErrorContinuationOptionContinue))
+			if err != nil {
+				return nil, err
+			}
+			return res.Unwrap()
+		}},
+		c12call{name: "BatchOpt(OnBatchErr=Undo)(items)", ops: []kmip.Operation{kmip.OperationActivate, kmip.OperationGet}, perItem: true, run: func(cl *kmipclient.Client) ([]kmip.OperationPayload, error) {
+			res, err := cl.BatchOpt(context.Background(), []kmip.OperationPayload{&payloads.ActivateRequestPayload{UniqueIdentifier: "id"}, &payloads.GetRequestPayload{UniqueIdentifier: "id"}}, kmipclient.OnBatchErr(kmip.BatchErrorContinuationOptionUndo))
+			if err != nil {
+				return nil, err
+			}
+			out := make([]kmip.OperationPayload, len(res))
+			for i := range res {
+				if res[i].Err() != nil {
+					out[i] = failedItem{}
+				} else {
+					out[i] = res[i].ResponsePayload
+				}
+			}
+			return out, nil
+		}},
 		c12call{name: "Signer", ops: []kmip.Operation{kmip.OperationGetAttributes}, run: func(cl *kmipclient.Client) ([]kmip.OperationPayload, error) {
 			_, err := cl.Signer(context.Background(), "priv", "pub")
 			if err == nil {
@@ -317,10 +347,10 @@ func c12Calls() []c12call {
 func runC12(c *vlib.Check) {
 	specs := allRespSpecs()
 	calls := c12Calls()
-	c.Rule = fmt.Sprintf("every fluent call (%d executors of the 27 operations, Request, Batch+Unwrap, BatchExec, the Signer flow, and the dial-time version discovery) x every crafted response of the product "+
+	c.Rule = fmt.Sprintf("every fluent call (%d executors of the 27 operations, Request, Batch+Unwrap, BatchExec with and without each batch error continuation option, a three-operation Then chain, the Signer flow, and the dial-time version discovery) x every crafted response of the product "+
 		"header batch count {0,1,2} x items {0,1,2} x item operation {same, another implemented, unregistered, absent} x status {Success, Failed, Pending, Undone, 7} x reason {absent, 3 named, unnamed} x "+
 		"payload {absent, right type, another operation's type, opaque} x message {empty, text} (%d responses per call). Responses are produced by the independent generator and decoded by the library before being handed to the client "+
-		"through a stub installed as innermost middleware; for every 5th call the same responses also travel over an in-memory connection through the client's own receive path, many per connection. distinct = distinct (call, response) pairs", len(calls)-4, len(specs))
+		"through a stub installed as innermost middleware; for every 5th call the same responses also travel over an in-memory connection through the client's own receive path, many per connection. distinct = distinct (call, response) pairs", len(calls)-7, len(specs))
 	c.Assumptions = []string{"'carries status, reason and message': the error text contains the registered name (or the number, for unregistered values) of the status and of the reason when present, and the message text",
 		"the carrying clause is only judged when counts match (header count = items = requested items)"}
 	// per-item call: every pair of item specs (reduced alphabet), so that a violating item can follow a failed one
